@@ -1,10 +1,10 @@
 SPECIFICATION Spec
 CONSTANTS
   Deviations <- AllDevs
-  InputMenu <- MenuVac
+  InputMenu <- MenuChain
   MaxNodes = 3
   Vals <- ValsStd
-  Rich = 1
+  Rich = 0
   Chain = TRUE
 INVARIANT Sound
 CHECK_DEADLOCK FALSE
